@@ -124,7 +124,7 @@ func (e *eqExprEngine) runDeadline(k, ms int) string {
 			got = render(v)
 		}
 		switch got {
-		case "T", "err", "K:same", "K:timeout":
+		case "T", "err", render(kw("same")), render(kw("timeout")):
 		default:
 			return fmt.Sprintf("T\t!%s on structurally equal values under a deadline of %v (the comparison takes %v) ⇒ %s (neither true nor the timeout error)", eqBig[k], d, full, got)
 		}
